@@ -37,6 +37,7 @@ OBLIGATIONS = [
     "Grog.C05.fail_fast_no_release",
     "Grog.C05.ctx_stays_cancelled",
     "Grog.C05.failed_not_cached",
+    "Grog.C05.missing_any_declared_output_fails",
     "Grog.C05.tail_failure_kinds",
     "Grog.C05.exit_status",
     "Grog.C05.keep_going_exit_status",
